@@ -105,9 +105,36 @@ package socket
 
 // user-supplied connection and protocol constructors do not reach into the
 // framework's private state (assumption, listed in the evidence)
-//@ trusted TryOptimize
+// (the assumption sits on the user-supplied pieces: a protocol constructor and the
+// connection's tuning methods; the two functions that call them are verified)
+//@ iface dynamic:socket.ProtoFunc
+//@   flags libframe
 //@   modifies nothing
-//@ trusted getProto
+//@ iface dynamic:func(rw socket.IOWithReadBuffer) socket.Proto
+//@   flags libframe
+//@   modifies nothing
+//@ iface socket.ifaceSetKeepAlive.SetKeepAlive
+//@   flags libframe
+//@   modifies nothing
+//@ iface socket.ifaceSetKeepAlive.SetKeepAlivePeriod
+//@   flags libframe
+//@   modifies nothing
+//@ iface socket.ifaceSetBuffer.SetReadBuffer
+//@   flags libframe
+//@   modifies nothing
+//@ iface socket.ifaceSetBuffer.SetWriteBuffer
+//@   flags libframe
+//@   modifies nothing
+//@ iface socket.ifaceSetNoDelay.SetNoDelay
+//@   flags libframe
+//@   modifies nothing
+//@ func TryOptimize
+//@   property C20
+//@   flags libframe
+//@   modifies nothing
+//@ func getProto
+//@   property C20
+//@   flags libframe
 //@   modifies nothing
 
 //@ frameset msgAll(m *message) = m.serviceMethod, m.status, m.body, m.newBodyFunc, m.ctx, m.size, m.seq, m.mtype, m.bodyCodec, fields(m.meta), allelems(type(utils.argsKV)), fields(m.xferPipe), allelems(type(xfer.XferFilter))
